@@ -377,6 +377,15 @@ empty @is_you(int x) { int var_halt_0 = halt + tnt + r0 + ap + fp + defeat + loo
   try { !write_int(x); write('n'); } stop { write('s'); } for (int loop_1 = 0; loop_1 < 2; loop_1 += 1) { write(loop_1); } write(string_0(all_is_win2)); write(string_0("string_0")); }''', [['6'], ['2']]),
 ]
 
+MISC += [
+    # one base name in all three flavours (and overloaded), identical parameter types
+    ('same_base_name_flavours', '''int x = 0;
+int f(int a) { return a + 1; } int @f(int a) { return a * 2; } int !f(int a) { !truth_is_defeat(a == 3); return a - 1; }
+int f(byte a) { return 100 + a; } int @f(byte a) { return 200 + a; } empty g(const int[] p) { write(p[0]); } empty @g(const int[] p) { write(p[1]); } empty !g(const int[] p) { write(p[2]); !truth_is_defeat(p[2] == 9); }
+empty @is_you(int a, byte b) { write(f(a)); write(' '); write(@f(a)); write(' '); try { write(!f(a)); write('n'); } undo { write('u'); } write(' '); write(f(b)); write(@f(b)); write(' ');
+  int[] arr = [a, 5, 9 - a]; g(arr); @g(arr); try { !g(arr); write('m'); } stop { write('s'); } write(f(a) + @f(a)); }''', [['3', '1'], ['0', '2'], ['7', '255']]),
+]
+
 # ------------------------------------------------------------------------------------------------ constants beyond 16 bits
 WIDE_PROG = '''int big = 100000; int neg = -100000; int edge = 65536; int nedge = -65536; int e1 = 65535; int ne1 = -65537;
 const int[] TAB = [70000, -70000, 8388607, -8388607, 16777, -1]; int[] MTAB = [-8000000, 8000000];
